@@ -304,6 +304,23 @@ fn pairs(out: &mut Out, rng: &mut Rng, n: usize, only: Option<&str>) {
         wb[v.ck_len() + 1] = 0x88;
         emit_cmp(out, *v, &wa, &wb);
         emit_cmp(out, *v, &wb, &wa);
+        // two body positions changed by the same delta (cross-lane interaction; d = 0 only for equal hashes)
+        let body0 = v.ck_len() + 2;
+        let blen = size - body0;
+        let offs: Vec<usize> = if blen <= 12 { (1..blen).collect() } else { vec![1, 2, 3, 4, 8, 16, 32] };
+        for i in 0..blen {
+            for &o in &offs {
+                if i + o >= blen || (blen > 12 && (i + o) % 3 == 1 && n < 1000) {
+                    continue;
+                }
+                let a = image(*v, rng);
+                let mut b = a.clone();
+                let d = *rng.pick(&[0xffu8, 0x01, 0x80, 0x33]);
+                b[body0 + i] ^= d;
+                b[body0 + i + o] ^= d;
+                emit_cmp(out, *v, &a, &b);
+            }
+        }
         for i in 0..n {
             let a = image(*v, rng);
             let b = match i % 6 {
